@@ -666,6 +666,7 @@ type c15CPub struct {
 	ID      int    `json:"id"`
 	Topic   string `json:"topic"`
 	Payload string `json:"payload"` // first byte: 'D' pipeline drops, 'X' pipeline disconnects, else pass
+	Dup     bool   `json:"dup,omitempty"` // DUP flag (a retransmission, or a client that sets it anyway): changes nothing for the broker
 }
 
 type c15CPubIn struct {
@@ -708,6 +709,7 @@ func c15RunCPub(in c15CPubIn) (obs c15CPubObs) {
 	mk := func(p c15CPub) *packets.PublishPacket {
 		pk := packets.NewControlPacket(packets.Publish).(*packets.PublishPacket)
 		pk.Qos = byte(p.Qos)
+		pk.Dup = p.Dup
 		pk.MessageID = uint16(p.ID)
 		pk.TopicName = p.Topic
 		pk.Payload = []byte(p.Payload)
@@ -785,7 +787,21 @@ func c15GenCPub(r *vfRand, adv bool) c15CPubIn {
 		default:
 			p.Payload = body
 		}
+		if r.Chance(1, 6) {
+			p.Dup = true // DUP on a first transmission
+		}
 		in.Pubs = append(in.Pubs, p)
+		if p.Qos == 1 && r.Chance(1, 4) {
+			// the client retransmits: DUP, same packet id (whether or not the first copy got through the limiter,
+			// every copy the limiter admits goes to the backend and is acknowledged)
+			q := p
+			q.Dup = true
+			q.Payload = p.Payload + "r"
+			if len(q.Payload) > 0 && (q.Payload[0] == 'X') {
+				q.Payload = "r" + q.Payload
+			}
+			in.Pubs = append(in.Pubs, q)
+		}
 	}
 	return in
 }
